@@ -210,17 +210,23 @@ class State:
                 )
             elif len(parts) == 4 and parts[2] == "old" and f"{parts[0]}.{parts[1]}.old" in notify_vars:
                 notify_vars[var_name] = getattr(notify_vars[f"{parts[0]}.{parts[1]}.old"], parts[3], None)
-            elif 1 <= var_name.count(".") <= 3 and not cls.exist(var_name):
-                notify_vars[var_name] = None
             elif 1 <= var_name.count(".") <= 2:
                 #
-                # it exists but hasn't been notified yet: use its value now, when the change is
-                # delivered, rather than whatever it is when the expression gets evaluated
+                # it hasn't been notified yet: use its value now, when the change is delivered,
+                # rather than whatever it is when the expression gets evaluated (this includes
+                # the methods of the value, eg domain.name.lower)
                 #
                 try:
                     notify_vars[var_name] = cls.get(var_name)
                 except (NameError, AttributeError):
-                    notify_vars[var_name] = None
+                    #
+                    # undefined state variables and attributes are None; a function or service
+                    # of that name (eg, state.get) isn't a state variable and stays callable
+                    #
+                    if Function.get(var_name) is None:
+                        notify_vars[var_name] = None
+            elif var_name.count(".") == 3:
+                notify_vars[var_name] = None
         return notify_vars
 
     @classmethod
